@@ -5,13 +5,13 @@
 (* matcher, over small alphabets, complete up to MaxLen.                   *)
 (***************************************************************************)
 EXTENDS Markdown, Json
-CONSTANTS MaxLen
+CONSTANTS MaxLen, TagLen
 RowAlpha == {PIPE, 45, 58, 32, 120}            \* | - : blank x
 TagAlpha == {BACKTICK, AT, 32, 120}
 VARIABLES vKind, vN, vBody, vSeen
 Init == /\ vSeen = FALSE
         /\ \/ vKind = "row" /\ vN \in 0..8 /\ vBody \in UNION { [1..m -> RowAlpha] : m \in 0..MaxLen }
-           \/ vKind = "tags" /\ vN \in 0..1 /\ vBody \in UNION { [1..m -> TagAlpha] : m \in 0..(MaxLen + 4) }
+           \/ vKind = "tags" /\ vN \in 0..1 /\ vBody \in UNION { [1..m -> TagAlpha] : m \in 0..TagLen }
 Next == ~vSeen /\ vSeen' = TRUE /\ UNCHANGED <<vKind, vN, vBody>>
 Spec == Init /\ [][Next]_<<vKind, vN, vBody, vSeen>>
 TestLine == IF vKind = "row" THEN [j \in 1..vN |-> 32] \o <<PIPE>> \o vBody \o <<LF>> ELSE [j \in 1..vN |-> 32] \o vBody \o <<LF>>
